@@ -39,6 +39,7 @@ func c21Build(r *vkit.Run, t *testing.T, wi int) *c21World {
 	x := &c21World{env: env, m: sk.NewModel()}
 	x.w = c17NewWorld(rg, 3, 10, &ctr)
 	steps := rg.Range(6, 12)
+	setupDeletes := 0
 	for s := 0; s < steps; s++ {
 		switch k := rg.Intn(10); {
 		case s < 2 || k < 6:
@@ -78,6 +79,7 @@ func c21Build(r *vkit.Run, t *testing.T, wi int) *c21World {
 				continue
 			}
 			d.Apply(x.w, x.m)
+			setupDeletes++
 			if err := env.Delete(d.Min, d.Max, pred, me); err != nil {
 				r.Inconclusive("setup_delete_failed")
 				env.Close()
@@ -93,7 +95,14 @@ func c21Build(r *vkit.Run, t *testing.T, wi int) *c21World {
 		for _, f := range x.m.Fields(skey) {
 			got := cc.directRead(x.w.ByKey[skey], f, env.Groups())
 			sort.Slice(got, func(i, j int) bool { return got[i].T < got[j].T })
-			if sk.Diff(x.m.Read(skey, f, sk.MinT, sk.MaxT, true), got) != "" {
+			if d := sk.Diff(x.m.Read(skey, f, sk.MinT, sk.MaxT, true), got); d != "" {
+				if setupDeletes == 0 {
+					// nothing was deleted: the shards' cursors must return what was written
+					r.Violation("written_points_not_read_back", map[string]string{"via": "shard_cursor", "setup_deletes": "0"},
+						map[string]any{"world": wi, "setup": x.log, "series": skey, "field": f, "diff": d})
+					env.Close()
+					return nil
+				}
 				r.Event("worlds_skipped_setup_delete_defect", 1)
 				env.Close()
 				return nil
